@@ -34,6 +34,7 @@ EVID = os.path.join(VERIF, "evidence")
 REPLAYS = os.path.join(VERIF, "replays")
 NCPU = 3  # parallel coqc beyond ~4 collapses in this VM (page-fault contention)
 SHARD = 600
+SHARD_BYTES = 60000
 
 TRUSTED_BASE = [
     "Coq 8.16.1 kernel including the vm_compute bytecode VM (used by the in-kernel correspondence evaluation and by *_refuted / finite-domain proofs); no native_compute",
@@ -215,10 +216,24 @@ def run_coq_shards(prop: Prop, stream: Stream, triples: list[tuple[int, str, str
     """returns (mismatching indices, model output text per shard, errors)"""
     os.makedirs(CASES, exist_ok=True)
     paths = []
-    for k in range(0, len(triples), SHARD):
-        p = os.path.join(CASES, f"{prop.pid}_{stream.name}_{tag}_{k // SHARD}.v")
-        write_cases_file(p, stream, triples[k:k + SHARD])
+    # shards bounded by case count and by text size (Coq elaborates large literals superlinearly)
+    chunks, cur, size = [], [], 0
+    for tr in triples:
+        n = len(tr[1]) + len(tr[2])
+        if cur and (len(cur) >= SHARD or size + n > SHARD_BYTES):
+            chunks.append(cur)
+            cur, size = [], 0
+        cur.append(tr)
+        size += n
+    if cur:
+        chunks.append(cur)
+    shard_of = {}
+    for k, chunk in enumerate(chunks):
+        p = os.path.join(CASES, f"{prop.pid}_{stream.name}_{tag}_{k}.v")
+        write_cases_file(p, stream, chunk)
         paths.append(p)
+        for tr in chunk:
+            shard_of[tr[0]] = k
     procs = []
     mism: list[int] = []
     texts: dict[int, str] = {}
@@ -231,7 +246,11 @@ def run_coq_shards(prop: Prop, stream: Stream, triples: list[tuple[int, str, str
         still = []
         for k, p, pr in running:
             if block or pr.poll() is not None:
-                out, errt = pr.communicate()
+                pr.wait()
+                pr._outf.seek(0)
+                out, errt = pr._outf.read(), ""
+                pr._outf.close()
+                os.remove(p[:-2] + ".out")
                 if pr.returncode != 0:
                     errors.append(f"coqc failed on {os.path.basename(p)}: {(out + errt)[-1500:]}")
                 else:
@@ -262,8 +281,11 @@ def run_coq_shards(prop: Prop, stream: Stream, triples: list[tuple[int, str, str
     while pending or running:
         while pending and len(running) < NCPU:
             k, p = pending.pop(0)
+            # output goes to a file: a pipe would fill up (and deadlock) on large model outputs
+            outf = open(p[:-2] + ".out", "w+")
             pr = subprocess.Popen(["timeout", "900", "coqc", "-Q", "theories", "Asynkit", p],
-                                  cwd=COQ, stdout=subprocess.PIPE, stderr=subprocess.PIPE, text=True)
+                                  cwd=COQ, stdout=outf, stderr=subprocess.STDOUT, text=True)
+            pr._outf = outf
             running.append((k, p, pr))
         reap(False)
         if running:
